@@ -9,7 +9,7 @@ CFG = dict(
                "the instance accepted from the leader of its round, whose value passed the value check, in the round of the commits "
                "(C02_local_decision_for_leaders_proposal); one lemma per forged-certificate class (duplicate / zero / foreign signer, "
                "sub-quorum, bad aggregate signature, value≠root, wrong identifier, non-commit, other height) shows the controller state is unchanged "
-               "and nothing is emitted. Quorum = 2f+1 of 3f+1 is proved from the kernel translated from ComputeQuorumAndPartialQuorum.",
+               "and nothing is emitted. Quorum = 2f+1 of 3f+1 is proved from the kernel translated from ComputeQuorumAndPartialQuorum. Glue: engine `vglue -mode ncv` drives the real NonCommitteeValidator (production constructor, exporter / non-exporter, full / light) with genuine and forged decided messages; everything it reports or stores is re-verified from scratch (oracle only, outside the model).",
     level_note="Trusted: Lean kernel (axioms propext/Classical.choice/Quot.sound only), fact extractor, harness abstraction (sigOk = result of the real "
                "VerifyByOperators). The model is tied to the code by regenerated call-order facts and by the differential run of the real controller + real "
                "QBFTStore against the model on a forged-certificate stream, on which the implementation-side oracle re-verifies every reported certificate "
@@ -17,7 +17,11 @@ CFG = dict(
     technique="Lean 4 proof (container invariant by induction over op lists) + regenerated facts + differential execution + re-verification oracle",
     lean=["Ssv.Props.C02"],
     engines=[dict(harness="qbft", driver="m_qbft", args=["-mode", "c02"], case_delim="reset",
-                  n_quick=20000, n_thorough=250000, thorough_seeds=4, n_search=80000, search_seeds=3)],
+                  n_quick=20000, n_thorough=250000, thorough_seeds=4, n_search=80000, search_seeds=3),
+             # glue (implementation-side oracle only): the REAL NonCommitteeValidator (production constructor, exporter / non-exporter, full / light)
+             # fed genuine and forged decided messages; everything it reports or stores must re-verify as a quorum certificate (seeded change W-m03)
+             dict(harness="vglue", driver=None, args=["-mode", "ncv"], case_delim="ncase", n_quick=60, n_thorough=2000, thorough_seeds=2,
+                  n_search=400, search_seeds=2)],
     rule="real controllers (n=4,7) brought to a random point of honest or forged-Byzantine traffic, then a stream of forged certificates: every single-field "
          "mutation of real aggregated commits (signer list edits: drop/duplicate/swap/foreign/zero/reorder/all; re-aggregation with a wrong or foreign key; "
          "full data / root / round / height / identifier / type / data round / justifications, re-signed or not; signature flips), then the rest of the traffic "
